@@ -309,3 +309,25 @@ def run_obligations(run: common.Run, modnames: list[str], tier: str, only: str |
     cov["crosshair_paths"] = cov.get("crosshair_paths", 0) + paths
     cov["crosshair_wall_s"] = round(cov.get("crosshair_wall_s", 0) + cpu, 1)
     return {"obligations": n_ob, "discharged": n_dis, "inconclusive": n_inc, "paths": paths}
+
+
+def run_side_obligations(run: common.Run, modnames: list[str], tier: str, only, key: str, explanation: str, keep_samples: int = 3) -> dict:
+    """CrossHair obligations of a property whose main counts come from another engine: the obligation counts go under
+    coverage[key] (and coverage['obligations'/'discharged']); evaluations / distinct_nontrivial / samples of the main engine are kept."""
+    cov = run.coverage
+    keep = {k: cov.get(k) for k in ("evaluations", "distinct_nontrivial", "samples")}
+    for k in ("obligations", "discharged", "inconclusive", "evaluations", "distinct_nontrivial", "samples", "crosshair_paths", "crosshair_wall_s"):
+        cov.pop(k, None)
+    run_obligations(run, modnames, tier, only)
+    lem = {k: cov.pop(k, None) for k in ("obligations", "discharged", "inconclusive", "crosshair_paths", "crosshair_wall_s")}
+    lem["obligation_records"] = cov.pop("samples", [])
+    lem["vacuity_twins_refuted"] = cov.pop("distinct_nontrivial", 0)
+    cov.pop("evaluations", None)
+    lem["explanation"] = explanation
+    cov[key] = lem
+    cov["obligations"], cov["discharged"] = lem["obligations"] or 0, lem["discharged"] or 0
+    for k, v in keep.items():
+        if v is not None:
+            cov[k] = v
+    cov["samples"] = list(keep["samples"] or []) + lem["obligation_records"][:keep_samples]
+    return lem
